@@ -250,10 +250,7 @@ Proof.
   apply (c05_proc_model w0 Hwf Hr Hsym). apply Wc. exact Hc.
 Qed.
 
-(* the hypothesis as a boolean on a case; the generator only produces cases for which it is true *)
-Definition sym_case (c : case) : bool :=
-  forallb (fun s => Bool.eqb (l_tsetup s) (l_tteardown s)) (lsp (w c)) || forallb (fun b => negb (t_deco b)) (tests (w c)).
-
+(* the hypothesis as a boolean on a case (Obs.sym_case); the generator only produces cases for which it is true *)
 Lemma sym_case_spec c : sym_case c = true ->
   (forall x, l_tsetup (spec_of (w c) x) = l_tteardown (spec_of (w c) x)) \/ (forall b, In b (tests (w c)) -> t_deco b = false).
 Proof.
